@@ -2,14 +2,14 @@
 (* Trace validation: every event of every recorded execution of the real   *)
 (* topsim must be a step of the specification (L2), and every property     *)
 (* predicate must hold in / between the logged states (L1, module Props).  *)
-EXTENDS TraceConv, TLCExt
+EXTENDS TraceConv, Props, TLCExt
 
 TData == JsonDeserialize(IOEnv.TRACE_FILE)
 NT == Len(TData.traces)
 Steps(i) == TData.traces[i].steps
 
-VARIABLES tid, l, cur
-tvars == <<cfg, tid, l, cur>>
+VARIABLES tid, l, cur, emit, logd, bos
+tvars == <<cfg, tid, l, cur, emit, logd, bos>>
 
 MergeD(c, d) == [k \in DOMAIN c |-> IF k \in DOMAIN d THEN d[k] ELSE c[k]]
 
@@ -31,9 +31,9 @@ SuccsT(A, i, rec) ==
         P == Pop(A, i)
     IN IF pid[1] = "AT" /\ Len(rec.prop) = 1 /\ P.procs[pid].ph # "done"
        THEN LET prop == LoggedProp(rec)
-            IN {ATStep(P, pid, pv, prop, W, FALSE) :
-                  pv \in ProvOptions(P, pid[2]),
-                  W \in UNION {Winners(ApplyProv(P, pid[2], pv2), prop) : pv2 \in ProvOptions(P, pid[2])}}
+            IN UNION {{ATStep(P, pid, pv, prop, ord, FALSE) :
+                         ord \in UNION {Orders(W) : W \in Winners(ApplyProv(P, pid[2], pv), prop)}}
+                      : pv \in ProvOptions(P, pid[2])}
        ELSE Succs(A, i)
 
 (* is the logged proposal one the policy's contract allows? *)
@@ -67,7 +67,41 @@ Diff(A, B, rec) ==
                             <= Cardinality({f \in DOMAIN Norm(U) : Norm(U)[f] # Norm(B)[f]})
                  IN {f \in DOMAIN Norm(T) : Norm(T)[f] # Norm(B)[f]}
 
+(* ---- event hand-over bookkeeping (C13) ---- *)
+Tag(seq, a) == [i \in 1..Len(seq) |-> [a |-> a, t |-> seq[i].t, o |-> seq[i].o, r |-> seq[i].r, e |-> seq[i].e]]
+IsPrefixOf(s, u) == Len(s) <= Len(u) /\ SubSeq(u, 1, Len(s)) = s
+NewIn(s, u) == IF IsPrefixOf(s, u) THEN SubSeq(u, Len(s) + 1, Len(u)) ELSE u
+NewEmitted(A, B) == Tag(NewIn(A.ev.tel, B.ev.tel), "instrument") \o Tag(NewIn(A.ev.sch, B.ev.sch), "scheduler")
+                    \o Tag(NewIn(A.ev.buf, B.ev.buf), "buffer")
+PendingOf(B) == Tag(B.ev.tel, "instrument") \o Tag(B.ev.sch, "scheduler") \o Tag(B.ev.buf, "buffer")
+NoLoss(em, lg, B) == \A x \in RangeOf(em) : CountIn(lg, x) + CountIn(PendingOf(B), x) >= CountIn(em, x)
+NoDup(em, lg) == \A x \in RangeOf(lg) : CountIn(lg, x) <= CountIn(em, x)
+
+RowOK(A, row) == \A c \in DOMAIN TrueRow(A) : row[c] = TrueRow(A)[c]
+
+Report(ok, tag, i, what) == IF ok THEN TRUE ELSE PrintT(<<tag, tid, i, what>>)
+
+EndChecks(tr, i) ==
+    LET e == tr.end
+        X == Abs(e.st)
+    IN /\ Report(e.exc.type = "" /\ ~e.budget, "L1", i, "C05.completes")
+       /\ Report(e.budget \/ e.t <= SerialBound * K, "L1", i, "C05.bound")
+       /\ IF e.completed /\ e.exc.type = "" /\ Len(tr.segs) = 0
+          THEN /\ Report(End_C02(X), "L1", i, "C02.end")
+               /\ Report(End_C04(X), "L1", i, "C04.end")
+               /\ Report(Len(e.tasktable) = Card(DOMAIN X.tasks)
+                         /\ Card({e.tasktable[j].id : j \in 1..Len(e.tasktable)}) = Len(e.tasktable),
+                         "L1", i, "C04.table")
+               /\ Report(End_C07(X), "L1", i, "C07.end")
+               /\ Report(Len(e.rows) = e.t \div K, "L1", i, "C12.rows")
+               /\ Report(End_C13_complete(e.log), "L1", i, "C13.complete")
+               /\ IF End_C13_complete(e.log) THEN Report(End_C13_order(e.log), "L1", i, "C13.order") ELSE TRUE
+               /\ IF End_C13_complete(e.log) THEN Report(End_C13_times(e.log, X), "L1", i, "C13.times") ELSE TRUE
+               /\ Report(\A x \in RangeOf(emit) : CountIn(e.log, x) = CountIn(emit, x), "L1", i, "C13.handover")
+          ELSE TRUE
+
 TInit == /\ tid \in 1..NT
+         /\ emit = <<>> /\ logd = <<>> /\ bos = 1
          /\ l = 1
          /\ cur = Steps(tid)[1].d
          /\ cfg = CfgOf(TData.traces[tid].cfg)
@@ -81,8 +115,19 @@ TNext == /\ l < Len(Steps(tid))
                 cur2 == MergeD(cur, rec.d)
                 A == Abs(cur)
                 B == Abs(cur2)
+                em2 == emit \o NewEmitted(A, B)
+                lg2 == logd \o rec.newlog
             IN /\ cur' = cur2
                /\ l' = l + 1
+               /\ emit' = em2 /\ logd' = lg2
+               /\ \A n \in RangeOf(InvNames) : Report(InvHolds(B, n), "L1", l + 1, n)
+               /\ \A n \in RangeOf(TrNames) : Report(TrHolds(A, B, n), "L1", l + 1, n)
+               /\ Report(Truth_C19(B, cur2.q), "L1", l + 1, "C19.truth")
+               /\ bos' = IF Boundary(A, B) THEN cur ELSE bos
+               /\ Report(Len(rec.rows) = 0 \/ (Len(rec.rows) = 1 /\ RowOK(Abs(IF Boundary(A, B) \/ l = 1 THEN cur ELSE bos), rec.rows[1])), "L1", l + 1, "C12.row")
+               /\ Report(NoLoss(em2, lg2, B), "L1", l + 1, "C13.noloss")
+               /\ Report(NoDup(em2, lg2), "L1", l + 1, "C13.nodup")
+               /\ IF l + 1 = Len(Steps(tid)) THEN EndChecks(TData.traces[tid], l + 1) ELSE TRUE
                /\ IF l = 1 /\ ~MatchS(StartState, A)
                   THEN PrintT(<<"DRIFT", tid, 1, "INIT", {f \in DOMAIN Norm(A) : Norm(A)[f] # Norm(StartState)[f]}>>)
                   ELSE TRUE
